@@ -99,7 +99,7 @@ theorem withdraw_can_fail : ¬ WithdrawNeverFails := by
     have hl : p.lpt = "lpt-1" := by
       have : (getPool (run w1Genesis w1Ops) "farm-1").map (·.lpt) = some "lpt-1" := by decide
       rw [hp] at this; simpa using this
-    obtain ⟨s', hs'⟩ := h _ hr "A2" "farm-1" f p 1 hf hp (by omega)
+    obtain ⟨s', hs'⟩ := h _ hr "A2" "farm-1" f p 1 hf hp (by omega) (by omega)
     rw [hl] at hs'
     have : C05.isOkE (step (run w1Genesis w1Ops) (.unstake "A2" "farm-1" "lpt-1" 1)) = false := by decide
     rw [hs'] at this
@@ -123,7 +123,7 @@ never rejects for any other reason — not for the principal, not for the pool u
 height, before or after the pool has ended or been destroyed. -/
 theorem unstake_ok_partial (s : State) (hi : Inv s) (a : Addr) (id : PoolId) (f : Farmer) (p : Pool) (amt : Nat)
     (hu : isModuleAcc a = false) (hv : validPoolId id = true)
-    (hf : getFarmer s a id = some f) (hp : getPool s id = some p) (ha : amt ≤ f.locked)
+    (hf : getFarmer s a id = some f) (hp : getPool s id = some p) (hpos : 0 < amt) (ha : amt ≤ f.locked)
     (hcov : CollectorCovers s a id amt p f) (hnp : NoRangePanic s a id amt p f) :
     ∃ s', step s (.unstake a id p.lpt amt) = .ok s' := by
   obtain ⟨une1, une2, _⟩ := user_ne hu
@@ -160,7 +160,8 @@ theorem unstake_ok_partial (s : State) (hi : Inv s) (a : Addr) (id : PoolId) (f 
     simp [step, Op.sender, hu, stepMsg]
   rw [hstep]
   unfold stepUnstake
-  simp only [hv, Bool.not_true, Bool.false_eq_true, if_false, hp, ne_eq, not_true_eq_false, hf]
+  have hnz : ¬ (amt = 0) := by omega
+  simp only [hv, Bool.not_true, Bool.false_eq_true, if_false, hnz, hp, ne_eq, not_true_eq_false, hf]
   -- unfold the core
   have hnp' := hnp
   have hcov' := hcov
